@@ -60,6 +60,30 @@ func init() {
 		case "rogue":
 			r, in := al.SimulateRogue(parseFrac(p[0]), parseFrac(p[1]))
 			return encRows(rowsOf(al)) + " " + strJoin(r) + " " + strJoin(in)
+		case "rarefy":
+			// rarefy <nb> <name=count;...>: three runs from the same seed must agree
+			counts := map[string]int{}
+			if p[1] != "_" {
+				for _, kv := range strings.Split(p[1], ";") {
+					i := strings.IndexByte(kv, '=')
+					counts[kv[:i]] = atoi(kv[i+1:])
+				}
+			}
+			run := func() string {
+				rand.Seed(seed)
+				s, err := al.Rarefy(atoi(p[0]), counts)
+				if err != nil {
+					return "err"
+				}
+				return "ok " + encRows(rowsOf(s))
+			}
+			first := run()
+			for k := 0; k < 4; k++ {
+				if again := run(); again != first {
+					return "nondet " + first + " | " + again
+				}
+			}
+			return first
 		case "support":
 			// `K` independent runs after one rand.Seed: which admissible outcomes were reached.
 			// Columns / rows of the input are distinct (the oracle checks), so an outcome is identified by content.
